@@ -3533,6 +3533,7 @@ static WBXMLError wbxml_encode_wv_datetime(WBXMLEncoder *encoder, WB_UTINY *buff
  */
 static WBXMLError wbxml_encode_drmrel_content(WBXMLEncoder *encoder, WB_UTINY *buffer)
 {
+    WBXMLBuffer *tmp = NULL;
     WB_UTINY *data = NULL;
     WB_LONG data_len = 0;
     const WBXMLTagEntry *current_tag = NULL;
@@ -3551,9 +3552,21 @@ static WBXMLError wbxml_encode_drmrel_content(WBXMLEncoder *encoder, WB_UTINY *b
         {
             /* <ds:KeyValue> content: "Encoded in binary format, i.e., no base64 encoding" */
 
+            /* Base64 text may be wrapped: remove white spaces (the decoder stops at the first one) */
+            if ((tmp = wbxml_buffer_create_from_cstr(buffer)) == NULL)
+                return WBXML_ERROR_NOT_ENOUGH_MEMORY;
+
+            wbxml_buffer_no_spaces(tmp);
+
             /* Decode Base64 */
-            if ((data_len = wbxml_base64_decode(buffer, -1, &data)) < 0)
+            data_len = wbxml_base64_decode(wbxml_buffer_get_cstr(tmp), -1, &data);
+
+            wbxml_buffer_destroy(tmp);
+
+            if (data_len < 0) {
+                wbxml_free(data);
                 return WBXML_NOT_ENCODED;
+            }
 
             if (data == NULL)
                 return WBXML_ERROR_NOT_ENOUGH_MEMORY;
@@ -3646,12 +3659,25 @@ static WBXMLError wbxml_encode_ota_nokia_icon(WBXMLEncoder *encoder, WB_UTINY *b
             if ((WBXML_STRCMP("NAME", wbxml_attribute_get_xml_name(attr)) == 0) &&
                 (WBXML_STRCMP("ICON", wbxml_attribute_get_xml_value(attr)) == 0))
             {
+                WBXMLBuffer *tmp = NULL;
                 WB_UTINY *data = NULL;
                 WB_LONG data_len = 0;
                 
+                /* Base64 text may be wrapped: remove white spaces (the decoder stops at the first one) */
+                if ((tmp = wbxml_buffer_create_from_cstr(buffer)) == NULL)
+                    return WBXML_ERROR_NOT_ENOUGH_MEMORY;
+
+                wbxml_buffer_no_spaces(tmp);
+
                 /* Decode Base64 */
-                if ((data_len = wbxml_base64_decode(buffer, -1, &data)) < 0)
+                data_len = wbxml_base64_decode(wbxml_buffer_get_cstr(tmp), -1, &data);
+
+                wbxml_buffer_destroy(tmp);
+
+                if (data_len < 0) {
+                    wbxml_free(data);
                     return WBXML_NOT_ENCODED;
+                }
 
                 if (data == NULL)
                     return WBXML_ERROR_NOT_ENOUGH_MEMORY;
